@@ -22,6 +22,7 @@ func init() {
 		"nondetStringU":  hNondetStringU,
 		"nondetASCII":    hNondetASCII,
 		"vparam":         hVparam,
+		"vhalt":          func(c *Ctx, st *State, fn *ssa.Function, a []Value) (*State, Value) { return nil, nil },
 		"vnative":        func(c *Ctx, st *State, fn *ssa.Function, a []Value) (*State, Value) { return st, c.tt.F },
 		"vassume":        hVassume,
 		"vassert":        hVassert,
